@@ -225,7 +225,7 @@ def run_model(cases, timeout=120, shards=NPROC):
                          'pulled': [int(x) for x in w[5].split(',')[1:] if x], 'stdin_opened': int(w[6])}
     return out
 
-ERRLINE = re.compile(rb'^error:[^\n]*\n', re.M)
+ERRLINE = re.compile(rb'error:[^\n]*\n')    # not anchored: with a row separator that has no line break the diagnostic follows a row on the same line
 def canon_errlines(b):
     return ERRLINE.sub(b'error:\n', b)
 
